@@ -77,7 +77,9 @@ Definition dec_bundle (u : universe) (l : list N) : bundle * list N :=
   match l with
   | kind :: n :: r =>
       let '(items, tl) := take_pairs n r in
-      (if N.eqb kind 0 then {| b_key := Some (0 :: map fst items); b_items := items |}
+      (* kind 0: a static tuple; kinds >= 10: derived Bundle structs (one TypeId each, fields in the
+         declared order); everything else: an EntityBuilder bundle *)
+      (if N.eqb kind 0 || N.leb 10 kind then {| b_key := Some (kind :: map fst items); b_items := items |}
        else {| b_key := None; b_items := fold_right (insert_item u) [] items |}, tl)
   | _ => ({| b_key := None; b_items := [] |}, [])
   end.
@@ -488,7 +490,7 @@ Definition conts_drop_all (k : conts) : list (tid * val) :=
   ++ concat (map (fun o => match o with Some b => cbatch_values b | None => [] end) (k_batch k))
   ++ concat (map cm_live_values (k_cmd k)).
 
-(* ---- borrow guards (opcodes 100..115) ---- *)
+(* ---- borrow guards (opcodes 100..116) ---- *)
 Definition set_g (st : est) (gs : list guard) (cs : list cells) : est :=
   {| e_u := e_u st; e_ws := e_ws st; e_handles := e_handles st; e_prep := e_prep st; e_k := e_k st;
      e_guards := gs; e_cells := cs; e_caps := e_caps st |}.
@@ -690,6 +692,12 @@ Definition exec_guard (st : est) (opc : N) (l : list N) : est * list N * list N 
   | 113, _ :: r1 =>
       let '(q, rest) := dec_ast r1 in
       (st, rest, [if assert_borrow_ok q then 0 else 9])
+  | 116, slot :: rest =>
+      (* Ref::map / RefMut::map: the guard object is replaced by one holding the same borrow *)
+      match nthN (e_guards st) slot with
+      | Some (GRef _ _ _) | Some (GRefMut _ _ _) => (st, rest, [0])
+      | _ => (st, rest, [8])
+      end
   | 114, rest => (st, rest, dump_cells st)
   | 115, rest =>
       let st1 := drop_all_slots (length (e_guards st)) st 0 in
@@ -843,8 +851,11 @@ Definition caps_hint (u : universe) (opc : N) (args : list N) (new_w : world) : 
 
 Definition caps_post (st st' : est) (opc : N) (l : list N) : est :=
   match l with
-  | wi :: args =>
-      if (N.leb 1 opc && N.leb opc 16) || N.eqb opc 53 || N.eqb opc 54 || N.eqb opc 64 then
+  | wi :: args0 =>
+      (* the partially consumed batch iterators (18, 19) grow storage exactly like 14 and 15 *)
+      let args := if N.eqb opc 18 || N.eqb opc 19 then tl args0 else args0 in
+      let opc := if N.eqb opc 18 then 14 else if N.eqb opc 19 then 15 else opc in
+      if (N.leb 1 opc && N.leb opc 17) || N.eqb opc 53 || N.eqb opc 54 || N.eqb opc 64 then
         let u := e_u st in
         let upd (st'' : est) (w : N) :=
           match nthN (e_ws st) w, nthN (e_ws st') w with
@@ -876,7 +887,7 @@ Definition caps_post (st st' : est) (opc : N) (l : list N) : est :=
 Definition exec_op (st : est) (opc : N) (l : list N) : est * list N * list N :=
   let u := e_u st in
   if N.leb 50 opc && N.leb opc 86 then exec_cont st opc l else
-  if N.leb 100 opc && N.leb opc 115 then exec_guard st opc l else
+  if N.leb 100 opc && N.leb opc 116 then exec_guard st opc l else
   if N.eqb opc 23 then
     (st, l, concat (map (fun wi => match get_w st wi with
                                    | None => [7]
@@ -943,7 +954,9 @@ Definition exec_op (st : est) (opc : N) (l : list N) : est * list N * list N :=
             | 6 | 7 | 8 => snd (dec_href st args)
             | 11 => tl args
             | 13 => tl (snd (dec_types args))
-            | 14 | 15 => let '(ts, r) := dec_types args in
+            | 14 | 15 | 17 => let '(ts, r) := dec_types args in
+                         match r with n :: r' => snd (dec_rows ts n r') | [] => [] end
+            | 18 | 19 => let '(ts, r) := dec_types (tl args) in
                          match r with n :: r' => snd (dec_rows ts n r') | [] => [] end
             | 16 => let '(ts, r) := dec_types args in
                     match r with n :: r' => snd (dec_rows ts n (snd (dec_hrefs st n r'))) | [] => [] end
@@ -952,7 +965,8 @@ Definition exec_op (st : est) (opc : N) (l : list N) : est * list N * list N :=
           let k := match opc with
                    | 1 | 2 | 8 | 10 => 1
                    | 11 => match args with n :: _ => n | [] => 0 end
-                   | 14 | 15 | 16 => match snd (dec_types args) with n :: _ => n | [] => 0 end
+                   | 14 | 15 | 16 | 17 => match snd (dec_types args) with n :: _ => n | [] => 0 end
+                   | 18 | 19 => match snd (dec_types (tl args)) with n :: _ => n | [] => 0 end
                    | _ => 0
                    end in
           (add_handles st (repeatN NOHANDLE k), rest, [8])
@@ -1102,6 +1116,53 @@ Definition exec_op (st : est) (opc : N) (l : list N) : est * list N * list N :=
                 match w_spawn_column_batch_at w hs sorted rows with
                 | (w', None, d) => (add_handles (set_w st wi w' 0) hs, rest, out_ok u [] d)
                 | (w', Some c, d) => (add_handles (set_w st wi w' 1) hs, rest, out_panic u c d)
+                end
+            | [] => (st, [], [])
+            end
+        | 17 =>
+            (* Extend<B> for World: a fold of spawn over the rows (static tuples); the caller does not get
+               the handles: both sides append them to the table sorted by bits.  The key is the tuple type of
+               the row itself: it is 0 :: ts for every complete row; a row cut short by the end of the
+               script is the (shorter) tuple it actually is *)
+            let '(ts, r1) := dec_types args in
+            match r1 with
+            | n :: r2 =>
+                let '(rows, rest) := dec_rows ts n r2 in
+                let '(w', hs, pan) :=
+                  fold_left (fun acc row =>
+                               let '(w0, hs0, pan0) := acc in
+                               match pan0 with
+                               | Some _ => acc
+                               | None => match w_spawn u w0 {| b_key := Some (0 :: map fst row); b_items := row |} with
+                                         | Done (w1, h) => (w1, hs0 ++ [h], None)
+                                         | Panic c => (w0, hs0, Some c)
+                                         end
+                               end) rows (w, [], None) in
+                match pan with
+                | None => (add_handles (set_w st wi w' 0) (sort_by to_bits hs), rest, out_ok u [lenN hs] [])
+                | Some c => (add_handles (set_w st wi w' 1) (repeatN NOHANDLE n), rest, out_panic u c (concat (dropN (lenN hs) rows)))
+                end
+            | [] => (st, [], [])
+            end
+        | 18 | 19 =>
+            (* spawn_batch / spawn_column_batch whose iterator is dropped after k handles were taken from it:
+               Drop spawns the rest; the first k handles are known in order, the others are appended sorted *)
+            match args with
+            | k :: args' =>
+                let '(ts, r1) := dec_types args' in
+                match r1 with
+                | n :: r2 =>
+                    let '(rows0, rest) := dec_rows ts n r2 in
+                    let res := if N.eqb opc 18 then w_spawn_batch u w (0 :: ts) ts rows0
+                               else let sorted := dedup_sorted (tsort u ts) in
+                                    w_spawn_column_batch w sorted (map (norm_row sorted) rows0) in
+                    match res with
+                    | Done (w', hs) =>
+                        let hs' := takeN k hs ++ sort_by to_bits (dropN k hs) in
+                        (add_handles (set_w st wi w' 0) hs', rest, out_ok u (map enc_entity (takeN k hs)) [])
+                    | Panic c => (add_handles (set_w st wi w 1) (repeatN NOHANDLE n), rest, out_panic u c (concat rows0))
+                    end
+                | [] => (st, [], [])
                 end
             | [] => (st, [], [])
             end
